@@ -1,0 +1,11 @@
+//go:build verif
+
+package reactor
+
+// TokensInUseForVerif returns the number of tokens currently taken from the pool.
+func TokensInUseForVerif() int {
+	if globalReactor == nil {
+		return 0
+	}
+	return len(globalReactor.tokenPool)
+}
